@@ -1,8 +1,10 @@
 package storelib
 
 import (
+	"errors"
 	"reflect"
 	"sort"
+	"unicode/utf8"
 
 	"github.com/element-of-surprise/coercion/workflow"
 	"github.com/google/uuid"
@@ -15,7 +17,46 @@ func NormValue(v any) any {
 	if v == nil {
 		return nil
 	}
+	if hasInvalidUTF8(reflect.ValueOf(v)) {
+		// go-json-experiment refuses Go strings that are not valid UTF-8 (encoding/json, which the
+		// abstraction uses, silently replaces them): mark the value as one the codec cannot encode
+		return NotUTF8{T: reflect.TypeOf(v).String()}
+	}
 	return normRV(reflect.ValueOf(v)).Interface()
+}
+
+// NotUTF8 stands, in the harness's record, for a value that holds a string that is not valid UTF-8.
+type NotUTF8 struct{ T string }
+
+func (NotUTF8) MarshalJSON() ([]byte, error) { return nil, errors.New("string is not valid UTF-8") }
+
+func hasInvalidUTF8(v reflect.Value) bool {
+	switch v.Kind() {
+	case reflect.String:
+		return !utf8.ValidString(v.String())
+	case reflect.Pointer, reflect.Interface:
+		return !v.IsNil() && hasInvalidUTF8(v.Elem())
+	case reflect.Struct:
+		for i := 0; i < v.NumField(); i++ {
+			if hasInvalidUTF8(v.Field(i)) {
+				return true
+			}
+		}
+	case reflect.Slice, reflect.Array:
+		for i := 0; i < v.Len(); i++ {
+			if hasInvalidUTF8(v.Index(i)) {
+				return true
+			}
+		}
+	case reflect.Map:
+		it := v.MapRange()
+		for it.Next() {
+			if hasInvalidUTF8(it.Key()) || hasInvalidUTF8(it.Value()) {
+				return true
+			}
+		}
+	}
+	return false
 }
 
 func normRV(v reflect.Value) reflect.Value {
